@@ -30,6 +30,7 @@ let c09_merge qq h1 h2 s2 = g_c09_merge qops qq h1 h2 s2
 let c09_closed qq h s2 = g_c09_closed qops qq h s2
 let fixed_grid_run cf t0 u0 dts = g_fixed_grid qops cf t0 u0 dts
 let step_run cf st dt = g_step qops cf st dt
+let init_run cf t0 u0 cinit = g_init qops cf t0 u0 cinit
 let finalize_run cf st0 sts st1 = g_finalize qops cf st0 sts st1
 let spec_smooth_run cf st0 sts dts = g_spec_smooth qops cf st0 sts dts
 
